@@ -25,6 +25,8 @@ class Result:
         self.called = set()
         self.budget_exhausted = False
         self.wall = 0.0
+        self.fork_sites = {}
+        self.rest = []
 
 
 def shape_value(shape):
@@ -57,14 +59,18 @@ def run_one(prog, models, root, shape, prefix=(), concrete=None, stats=None, tra
     return outcome, ctx, I
 
 
-def explore(prog, root, shape, max_paths=100000, max_seconds=600, models=None, sample_every=50, keep_samples=3, stop_on_cex=False):
+def explore(prog, root, shape, max_paths=100000, max_seconds=600, models=None, sample_every=50, keep_samples=3, stop_on_cex=False,
+            initial_work=None, return_rest=False):
     models = models or Models(prog)
     res = Result()
     t0 = time.time()
-    work = [[]]
+    work = [list(w) for w in initial_work] if initial_work is not None else [[]]
     while work:
         if res.paths >= max_paths or time.time() - t0 > max_seconds:
-            res.budget_exhausted = True
+            if return_rest:
+                res.rest = work
+            else:
+                res.budget_exhausted = True
             break
         prefix = work.pop()
         outcome, ctx, I = run_one(prog, models, root, shape, prefix, stats=res.stats, sample_every=sample_every)
@@ -74,6 +80,8 @@ def explore(prog, root, shape, max_paths=100000, max_seconds=600, models=None, s
         res.max_depth = max(res.max_depth, len(ctx.trace))
         res.called |= I.called
         work.extend(ctx.alts)
+        for k2, v2 in ctx.fork_sites.items():
+            res.fork_sites[k2] = res.fork_sites.get(k2, 0) + v2
         kind, data = outcome
         res.covers.update(ctx.covers)
         for t in ctx.checks_reached:
